@@ -394,7 +394,7 @@ def case_model(ctx, c):
                     ok = exact(a, b)
                 else:
                     ok, _ = fclose(b, a, ftol[name])
-                ctx.check("C04.forms.input", ok, site, "%s form == phased form" % f, icls_in,
+                ctx.check("C04.forms.input", ok, site, "%s form == phased form" % f, zcls if name == "bulmer" else icls_in,
                           witness=dict(wit0, output=name, phased=brief(a), other=brief(b)), coords=coords)
     # ---------------- *_numpy entry points (raw arrays only)
     Zf = dos.astype(float)
@@ -691,7 +691,7 @@ def case_fit(ctx, c):
         ctx.raised("rrBLUPModel0.gebv", ex)
 
 
-FAMILIES = {"model": (case_model, 2400, 240000), "fit": (case_fit, 280, 16000)}
+FAMILIES = {"model": (case_model, 2400, 120000), "fit": (case_fit, 280, 8000)}
 
 
 def run_shard(ctx):
